@@ -8,6 +8,7 @@ import (
 	"verif/mc/drive"
 	"verif/mc/engine"
 	"verif/mc/refcfg"
+	"verif/mc/refder"
 	"verif/mc/simfs"
 )
 
@@ -177,6 +178,12 @@ func c16Enumerate(tier string, yield func(any)) {
 			yield(&c16Case{Kind: "unit", TopAuth: top, AdmAuth: aa, AdmNA: 7, ProfNA: 7, Oids: 1, Reg: 1, Add: 1})
 		}
 	}
+	// a profession info without any member among 1..3: the number of profession infos is kept
+	for np := 1; np <= 3; np++ {
+		for pp := 0; pp < np; pp++ {
+			yield(&c16Case{Kind: "count", NP: np, PP: pp})
+		}
+	}
 	// shapes: every single-unit variant at every position against default neighbours
 	variants := c16Variants
 	for na := 1; na <= 3; na++ {
@@ -224,8 +231,66 @@ func c16EnumerateMore(tier string, yield func(any)) {
 	}
 }
 
+// c16Counts: admissions of 1..3 profession infos of which one has no member set at all (professionItems: []).
+// How that element is written is not agreed (see Assumptions); that the SEQUENCE OF carries as many profession
+// infos as were configured is.
+func c16Counts(x *engine.Ctx, c *c16Case) {
+	adm := &refcfg.Admission{}
+	ad := refcfg.Admissions{}
+	for p := 0; p < c.NP; p++ {
+		if p == c.PP {
+			ad.ProfessionInfos = append(ad.ProfessionInfos, refcfg.ProfessionInfo{ProfessionItems: []string{}})
+		} else {
+			ad.ProfessionInfos = append(ad.ProfessionInfos, refcfg.ProfessionInfo{ProfessionItems: []string{fmt.Sprintf("Item %d", p)}, RegistrationNumber: refcfg.S("1-2")})
+		}
+	}
+	adm.Admissions = []refcfg.Admissions{ad}
+	cfg := &refcfg.CertCfg{Path: "ent.yaml", Subject: "CN=adm", KeyAlg: "P-224", Exts: []refcfg.Ext{{Kind: refcfg.KADM, ADM: adm}}}
+	d := &Dir{Certs: []*refcfg.CertCfg{cfg}}
+	g := Generate(d, func(w *simfs.World) { w.Put("ent.pem", FixtureKeyPEM("P-224-0")) }, drive.Default)
+	x.Nontrivial(fmt.Sprintf("count %d %d", c.NP, c.PP))
+	if g.Res.Panic != "" {
+		x.Violation("C16/panic/"+g.Res.PanicSite, g.Res.Panic)
+		return
+	}
+	if !g.Res.OK() {
+		x.Outcome("count: a profession info without members is refused")
+		return
+	}
+	a := ReadArtifact(g.W, cfg.Path)
+	if a.Cert == nil {
+		x.Violation("C16/no-certificate", fmt.Sprint(a.CertErr))
+		return
+	}
+	exts := a.Cert.ExtByOID("1.3.36.8.3.3")
+	if len(exts) != 1 {
+		x.Violation("C16/admission/extension-count", fmt.Sprintf("%d admission extensions", len(exts)))
+		return
+	}
+	count := -1
+	if top, err := refder.ReadAll(exts[0].Value); err == nil {
+		if kids, err := refder.Children(top.Content); err == nil && len(kids) > 0 {
+			if adms, err := refder.Children(kids[len(kids)-1].Content); err == nil && len(adms) == 1 {
+				if parts, err := refder.Children(adms[0].Content); err == nil && len(parts) > 0 {
+					if pis, err := refder.Children(parts[len(parts)-1].Content); err == nil {
+						count = len(pis)
+					}
+				}
+			}
+		}
+	}
+	if count != c.NP {
+		x.Violation("C16/admission/profession-info-count", fmt.Sprintf("%d profession infos configured (number %d without any member), the extension carries %d: %x", c.NP, c.PP, count, exts[0].Value))
+	}
+	x.Outcome("count compared")
+}
+
 func c16Exec(x *engine.Ctx, cc any) {
 	c := cc.(*c16Case)
+	if c.Kind == "count" {
+		c16Counts(x, c)
+		return
+	}
 	adm := &refcfg.Admission{AdmissionAuthority: c16GN(c.TopAuth, "top")}
 	if c.Kind == "unit" {
 		ad, pi := c16Unit(c)
